@@ -163,6 +163,8 @@ class Scope:
 
         if self.parent is not None:
             self.symbol_attrs.parent = self.parent.symbol_attrs
+        else:
+            self.symbol_attrs.parent = None
 
     def declare(self, name, dtype, fail=True, **kwargs):
         """
